@@ -51,6 +51,7 @@ type Store struct {
 	ghosts  map[cid.Cid][]byte // bytes of removed blocks, for prefix views taken before the removal
 	removed map[cid.Cid]int    // cid -> number of distinct writes when the block was removed (absent = alive)
 	removes []cid.Cid          // every successful Remove in order
+	whole   *api
 }
 
 // Pins returns the recorded pin roots.
@@ -84,7 +85,15 @@ func (s *Store) Removes() []cid.Cid {
 }
 
 // API returns a CoreAPI over the whole store.
-func (s *Store) API() coreiface.CoreAPI { return &api{s: s, limit: -1} }
+// (one object per store, as replicas living in one process share their node's CoreAPI)
+func (s *Store) API() coreiface.CoreAPI {
+	s.mu.Lock()
+	defer s.mu.Unlock()
+	if s.whole == nil {
+		s.whole = &api{s: s, limit: -1}
+	}
+	return s.whole
+}
 
 // Prefix returns a read-only CoreAPI that sees only the first n distinct block writes.
 func (s *Store) Prefix(n int) coreiface.CoreAPI { return &api{s: s, limit: n} }
